@@ -169,10 +169,10 @@ def gen_gsc(rng, height):
     if c < 0.5:
         return {"kind": "SingularEval", "limit": rng.randint(30, 1500)}
     if c < 0.62:
-        w = rng.choice(["equal", "root", None, "list"])
+        w = rng.choice(["equal", "root", None, "list", "equal_str", "root_str"])   # *_str: the plain string instead of the WeightingStrategy member
         g = {"kind": "FitnessEval", "limit": rng.randint(30, 1500), "weights": w}
         if w == "list":
-            g["weights"] = [rng.choice([0, 1, 1, 2, 3]) for _ in range(height)]
+            g["weights"] = [rng.choice([0, 1, 1, 2, 3, 0.5, 1.5]) for _ in range(height)]   # halves are exact in binary64; the machine counts in half units
         return g
     if c < 0.72:
         return {"kind": "Precision", "eps": rng.choice([1e-2, 1e-1, 1.0]), "cap": rng.randint(6, 14)}
@@ -428,6 +428,8 @@ def build(spec, objective_wrapper=None, session=None):
             gsc = FitnessEvalLimitReached(g["limit"], WeightingStrategy.EQUAL)
         elif w == "root":
             gsc = FitnessEvalLimitReached(g["limit"], WeightingStrategy.ROOT)
+        elif w in ("equal_str", "root_str"):
+            gsc = FitnessEvalLimitReached(g["limit"], w[:-4])
         elif w is None:
             gsc = FitnessEvalLimitReached(g["limit"], None)
         else:
